@@ -109,8 +109,10 @@ def generate(tier, rng, hist):
             out.append("vlq.range %d %d" % (lo, lo + step))
         bump(hist, "range_pm_2^22", 1)
     else:
-        W = (1 << 28) if widened else (1 << 32)
-        step = (1 << 22) if widened else (1 << 25)
+        # widened (a quick command on changed code): +-2^24 keeps the run within a couple of minutes; digit-count
+        # boundaries beyond it are covered by the explicit 2^k, 2^k+-1 cases above
+        W = (1 << 24) if widened else (1 << 32)
+        step = (1 << 20) if widened else (1 << 25)
         for lo in range(-W, W, step):
             out.append("vlq.range %d %d" % (lo, min(lo + step, W)))
         bump(hist, "range_pm_2^32", 1)
